@@ -36,6 +36,9 @@ E1 == << Doc("E1", "enum-mb-max1", [type |-> "string", enum |-> <<JS(<<"<e9>">>)
          Doc("E1", "deny-typed", [type |-> "string", not |-> [enum |-> <<JS(<<"a">>), JS(<<"b">>)>>]]),
          Doc("E1", "deny-untyped", [not |-> [enum |-> <<JS(<<"a">>), JS(<<"a","b">>)>>]]),
          Doc("E1", "deny-ints", [not |-> [enum |-> <<JInt(1), JInt(2)>>]]),
+         Doc("E1", "untyped-int-enum", [enum |-> <<JInt(1), JInt(2), JInt(3)>>]),
+         Doc("E1", "untyped-int-enum-null", [enum |-> <<JInt(1), JInt(2), JNull>>]),
+         Doc("E1", "untyped-int-enum-prop", SObj(Props1("level", [enum |-> <<JInt(1), JInt(2), JInt(3)>>]), {"level"})),
          Doc("E1", "int-enum", [type |-> "integer", enum |-> <<JInt(0), JInt(1), JInt(-1)>>]),
          Doc("E1", "closed-nested", SObjClosed(Props2("in", SObjClosed(Props1("q", SInt), {"q"}), "s", [type |-> "string", minLength |-> 1]), {"in"})),
          Doc("E1", "tuple-of-constrained", STuple(<<[type |-> "string", maxLength |-> 1], SInt>>)),
